@@ -4,7 +4,7 @@
    validators_match, if_range_matches, content_range_text): C11/Proofs*.v.
    pd is the date parser (email.utils contract): every theorem holds for any function. *)
 From Coq Require Import ZArith.
-From Wz Require Import lib.Bytes C11.Base C11.Gen C11.Model C11.Proofs.
+From Wz Require Import lib.Bytes C11.GenArith C11.Base C11.Gen C11.Model C11.Proofs.
 Open Scope N_scope.
 
 (* ---------------------------------------------------------------- what the source says (regenerated) *)
@@ -329,3 +329,117 @@ Theorem C11_star_grammar : forall pd w (cur : str) ims lm st0 acc cl,
   /\ make_conditional pd (im_env [STAR] None) st0 (Some (render_tag (w, cur))) lm acc cl = Ok (MCResp st0 None).
 Proof. exact grammar_star. Qed.
 Print Assumptions C11_star_grammar.
+
+(* ================================================================ second round *)
+(* the comparisons, offsets and slice bounds of wsgi._RangeWrapper and of http.parse_range_header are regenerated
+   (C11/GenArith.v, under a pinned statement skeleton); these two theorems say what the model and the proofs
+   rely on - an off-by-one edit in the source changes a generated definition and they stop checking *)
+Theorem C11_range_wrapper_arithmetic :
+  (forall rl (c : bytes), adv rl c = (rl + length c)%nat)
+  /\ (forall rl start, skip_more rl start = (rl <=? start)%nat)
+  /\ (forall rl, is_first rl = (rl =? 0)%nat)
+  /\ (forall rl e, range_done rl e = (e <=? rl)%nat)
+  /\ (forall rl, crl_seek rl = rl /\ crl_skip rl = rl /\ crl_plain rl = rl /\ seek_pos rl = rl)
+  /\ (forall start len, end_of start len = (start + len)%nat) /\ initial_rl = 0%nat
+  /\ (forall c e, rw_retry c e = negb c && negb e)
+  /\ (forall (c : bytes) start rl, (start < rl)%nat -> first_cut c start rl = skipn (length c - (rl - start)) c)
+  /\ (forall (c : bytes) e crl, (crl <= e)%nat -> last_cut c e crl = firstn (e - crl) c).
+Proof. exact wrapper_arithmetic. Qed.
+Print Assumptions C11_range_wrapper_arithmetic.
+
+Theorem C11_parse_range_arithmetic :
+  (forall l, prh_suffix_blocked l = (l <? 0)%Z) /\ (forall b, prh_suffix_empty b = (b =? 0)%Z) /\
+  (forall b l, prh_begin_blocked b l = ((b <? l)%Z || (l <? 0)%Z)) /\ (forall p, prh_end_of p = (p + 1)%Z) /\
+  (forall b e, prh_empty_range b e = (b >=? e)%Z) /\
+  prh_last_end_init = 0%Z /\ prh_last_end_suffix = (-1)%Z /\
+  (forall e, prh_last_end_next (Some e) = e) /\ prh_last_end_next None = (-1)%Z.
+Proof. exact prh_specs. Qed.
+Print Assumptions C11_parse_range_arithmetic.
+
+(* 416 from the header text: for every Range header text, 416 iff range processing applies (GET/HEAD, guard passed)
+   and the text is unparsable, or parses to another unit, several ranges, or one range not satisfiable for the
+   length; the classes are exhaustive with the satisfiable one, for which the answer is that range *)
+Theorem C11_416_from_text : forall pd env st0 etag lm acc cl l,
+  make_conditional pd env st0 etag lm acc cl = Ok (MC416 l) <->
+  (cond_method env = true /\ range_request_skipped pd env etag lm acc cl = Ok false /\ l = cl /\
+   (text_unparsable (q_range env) \/ text_bad_range (q_range env) cl)).
+Proof. exact c416_from_text. Qed.
+Print Assumptions C11_416_from_text.
+
+Theorem C11_range_text_trichotomy : forall h cl,
+  text_unparsable h \/ text_bad_range h cl \/
+  exists r s e, parse_range_header h = Ok (Some r) /\ range_for_length r cl = Ok (Some (Some s, Some e)).
+Proof. exact text_trichotomy. Qed.
+Print Assumptions C11_range_text_trichotomy.
+
+Theorem C11_206_from_text : forall pd env st0 etag lm acc cl r s e,
+  cond_method env = true -> range_request_skipped pd env etag lm acc cl = Ok false ->
+  parse_range_header (q_range env) = Ok (Some r) -> range_for_length r cl = Ok (Some (Some s, Some e)) ->
+  exists L, cl = Some L /\ make_conditional pd env st0 etag lm acc cl = served s e L acc.
+Proof. exact c206_from_text. Qed.
+Print Assumptions C11_206_from_text.
+
+(* without If-Range, processing applies iff accept_ranges is on, the length is known and not zero, Range is present *)
+Theorem C11_range_applies_no_if_range : forall pd env etag lm acc cl,
+  q_if_range env = None ->
+  (range_request_skipped pd env etag lm acc cl = Ok false <->
+   accept_truthy acc = true /\ (exists L, cl = Some L /\ L <> 0%Z) /\ q_range env <> None).
+Proof. exact applies_no_if_range. Qed.
+Print Assumptions C11_range_applies_no_if_range.
+
+(* text-level instances: no = sign; bytes=a-b,c-d; unit=a-b for another unit *)
+Theorem C11_range_text_instances :
+  (forall h, forallb (fun c => negb (EQS =? c)) h = true -> text_unparsable (Some h))
+  /\ (forall pd a b c d L acc etag lm st0,
+        a <= b -> b < c -> c <= d -> 0 < L -> accept_truthy acc = true ->
+        make_conditional pd (range_env (hdr_two a b c d)) st0 etag lm acc (Some (Z.of_N L)) = Ok (MC416 (Some (Z.of_N L))))
+  /\ (forall pd u a b L acc etag lm st0,
+        a <= b -> forallb (fun c => negb (EQS =? c)) u = true -> list_eqb (lower (ustrip u)) s_bytes = false ->
+        0 < L -> accept_truthy acc = true ->
+        make_conditional pd (range_env (hdr_unit_first_last u a b)) st0 etag lm acc (Some (Z.of_N L))
+        = Ok (MC416 (Some (Z.of_N L)))).
+Proof. exact (conj text_without_equals (conj grammar_two_ranges grammar_other_unit)). Qed.
+Print Assumptions C11_range_text_instances.
+
+(* 304 exactly: the two side conditions are the two known findings, nothing else is excluded *)
+Theorem C11_304_iff : forall pd env st0 etag lm acc cl,
+  st0 <> 304 -> cond_method env = true ->
+  (make_conditional pd env st0 etag lm acc cl = Ok (MCResp 304 None) <->
+   range_request_skipped pd env etag lm acc cl = Ok true /\
+   (exists im, parse_etags (q_if_match env) = Ok im /\ etags_truthy im = false) /\
+   validators_match pd env etag lm = Ok true).
+Proof. exact cond_304_iff. Qed.
+Print Assumptions C11_304_iff.
+
+(* If-Range carrying a date (any date parser pd), no If-None-Match / If-Match: the range is processed iff
+   processing applies and floor_second(Last-Modified) <= that date, whatever ETag and If-Modified-Since are *)
+Theorem C11_if_range_date : forall pd env etag lm acc cl v d,
+  q_if_range env = Some v -> v <> [] -> pd v = Some d ->
+  q_if_none_match env = None -> q_if_match env = None ->
+  (range_request_skipped pd env etag lm acc cl = Ok false <->
+   range_applicable env acc cl = true /\ q_range env <> None /\
+   match lm with
+   | Some l => match pd l with Some t => (floor_second t <=? d)%Z = true | None => False end
+   | None => False
+   end).
+Proof. exact if_range_date. Qed.
+Print Assumptions C11_if_range_date.
+
+(* send_file over a file holding d (statements pinned, block size regenerated): a ranged answer is the declared
+   slice of d with agreeing headers; any other answer has Content-Length = size and the whole file as body *)
+Theorem C11_send_file_206 : forall pd env etag lm d st h cl ar out,
+  send_file_respond pd env etag lm d = Ok (WResp st (Some h) cl ar out) ->
+  exists s e : Z,
+    st = 206 /\ (0 <= s < e)%Z /\ (e <= Z.of_nat (length d))%Z /\
+    h = content_range_text s e (Z.of_nat (length d)) /\ cl = Some (dec_Z (e - s)) /\ ar = Some (AStr s_bytes) /\
+    (if list_eqb (q_method env) s_HEAD then out = []
+     else concat out = firstn (Z.to_nat (e - s)) (skipn (Z.to_nat s) d) /\ Forall (fun c => c <> []) out).
+Proof. exact send_file_206. Qed.
+Print Assumptions C11_send_file_206.
+
+Theorem C11_send_file_200 : forall pd env etag lm d st cl ar out,
+  send_file_respond pd env etag lm d = Ok (WResp st None cl ar out) ->
+  (st = 200 \/ st = 304 \/ st = 412) /\ cl = Some (dec_Z (Z.of_nat (length d))) /\
+  (list_eqb (q_method env) s_HEAD || no_body_status st = false -> concat out = d).
+Proof. exact send_file_200. Qed.
+Print Assumptions C11_send_file_200.
